@@ -2,6 +2,9 @@ use crate::explore::Ctx;
 use serde_json::Value;
 
 pub mod c01;
+pub mod c02;
+pub mod c06;
+pub mod c09;
 
 pub struct Entry {
     pub id: &'static str,
@@ -11,4 +14,7 @@ pub struct Entry {
 
 pub static REGISTRY: &[Entry] = &[
     Entry { id: "C01", run: c01::run_check, replay: c01::replay },
+    Entry { id: "C02", run: c02::run_check, replay: c02::replay },
+    Entry { id: "C06", run: c06::run_check, replay: c06::replay },
+    Entry { id: "C09", run: c09::run_check, replay: c09::replay },
 ];
